@@ -2542,6 +2542,23 @@ func isTextArgOf(call *ssa.Call, p *ssa.Parameter) bool {
 			strs = append(strs, q)
 		}
 	}
+	// a path names a file: it is handed to os / filepath functions or used as a map key; a text is parsed
+	usedAsPath := func(q *ssa.Parameter) bool {
+		for _, r := range *q.Referrers() {
+			if call, ok := r.(ssa.CallInstruction); ok {
+				if cal := call.Common().StaticCallee(); cal != nil && cal.Pkg != nil {
+					switch cal.Pkg.Pkg.Path() {
+					case "os", "path/filepath", "path", "io/ioutil":
+						return true
+					}
+				}
+			}
+		}
+		return false
+	}
+	if usedAsPath(p) {
+		return false
+	}
 	if len(strs) <= 1 {
 		return true
 	}
